@@ -337,6 +337,10 @@ def run_check(prop, tier, seed, only_parts=None, replay=None):
     for k in sorted(failures):
         f = failures[k]
         kf = match_known(known, prop, k)
+        if kf is None and str(f.get("part", "")).startswith("sampler:"):
+            # cross-property sampler: the case was generated by another property's module; a finding listed
+            # for that property (same key) is the same finding here
+            kf = match_known(known, f["part"].split(":")[1], k)
         if kf is not None:
             known_hit.setdefault(kf["key"], [kf, 0])[1] += f["count"]
             continue
